@@ -204,26 +204,31 @@ def lagSearch (wt hist : List Int) : Nat → Nat → Int → Int → Int × Int
     if s > f32r lmax then lagSearch wt hist fuel (lag + 1) (w32 s) lag
     else lagSearch wt hist fuel (lag + 1) lmax nc
 
-/-- `Calculation_of_the_LTP_parameters (d, dp, &bc, &Nc)`; `hist` = dp [-120 .. -1]: (bc, Nc) -/
-def ltpParams (d hist : List Int) : Int × Int :=
+/-- the scaling exponent `scal` of `Calculation_of_the_LTP_parameters` (for dmax = 0 the C leaves temp = 0, so scal = 6) -/
+def ltpScal (d : List Int) : Int :=
   let dmax := maxAbs d
   let temp : Int := if dmax = 0 then 0 else gsmNorm (shl32 dmax 16)
-  let scal : Int := if temp > 6 then 0 else w16 (6 - temp)
-  let wt := d.map fun x => sasr x scal.toNat
-  let (lmax, nc) := lagSearch wt hist 81 40 0 40
-  let lmax := w32 (lmax * 2)
-  let lmax := sasr lmax (6 - scal).toNat
-  let lpower := (((hist.drop (120 - nc).toNat).take 40).map fun x => sasr x 3).foldl (fun acc t => w32 (acc + t * t)) 0
-  let lpower := w32 (lpower * 2)
-  if lmax ≤ 0 then (0, nc)
-  else if lmax ≥ lpower then (3, nc)
+  if temp > 6 then 0 else w16 (6 - temp)
+
+/-- coding of the LTP gain from the rescaled maximum and the power (the tail of the same function) -/
+def ltpGain (lmax lpower : Int) : Int :=
+  if lmax ≤ 0 then 0
+  else if lmax ≥ lpower then 3
   else
     let temp := gsmNorm lpower
     let r := w16 (sasr (sasl32 lmax temp.toNat) 16)
     let s := w16 (sasr (sasl32 lpower temp.toNat) 16)
-    let bc : Int := if r ≤ gsmMult s (tab tabDLB 0) then 0 else if r ≤ gsmMult s (tab tabDLB 1) then 1
+    if r ≤ gsmMult s (tab tabDLB 0) then 0 else if r ≤ gsmMult s (tab tabDLB 1) then 1
       else if r ≤ gsmMult s (tab tabDLB 2) then 2 else 3
-    (bc, nc)
+
+/-- `Calculation_of_the_LTP_parameters (d, dp, &bc, &Nc)`; `hist` = dp [-120 .. -1]: (bc, Nc) -/
+def ltpParams (d hist : List Int) : Int × Int :=
+  let scal := ltpScal d
+  let wt := d.map fun x => sasr x scal.toNat
+  let ln := lagSearch wt hist 81 40 0 40
+  let lmax := sasr (w32 (ln.1 * 2)) (6 - scal).toNat
+  let lpower := w32 (2 * (((hist.drop (120 - ln.2).toNat).take 40).map fun x => sasr x 3).foldl (fun acc t => w32 (acc + t * t)) 0)
+  (ltpGain lmax lpower, ln.2)
 
 /-- `Long_term_analysis_filtering`: (dpp [0..39], e [0..39]) -/
 def ltAnalysis (bc nc : Int) (hist d : List Int) : List Int × List Int :=
